@@ -2,9 +2,14 @@
 
    Statements are about Model/Config.v over the tables regenerated from
    capi/src/io.rs, capi/src/public.rs, src/editor/mod.rs,
-   src/editor/zhuyin_layout/mod.rs on every run.  Pinned tree BEFORE the three
-   fix: commits - three parts of the property are false of the faithful model and
-   appear as `_refuted` witnesses next to the `_partial` statements that hold. *)
+   src/editor/zhuyin_layout/mod.rs on every run.
+
+   History: on the pinned tree three parts of the property were false of the faithful
+   model (witnesses proved as C16_kb_tables_agree_refuted, C16_set_KBType_unknown_refuted,
+   C16_layout_in_effect_refuted, C16_selection_keys_refuted in /verif commit 350a05e and
+   replayed on the implementation: corpus/C16-*.json).  After the three `fix:` commits in
+   /repo (f6dfc99, a821b5d, 6c09609) the model follows the fixed code and every statement
+   below is the full one. *)
 From Coq Require Import ZArith NArith List Bool String Ascii.
 From LC Require Import Base.Lib Gen.Capi_gen Model.Config Proofs.ConfigProofs.
 Import ListNotations.
@@ -80,18 +85,10 @@ Theorem C16_kb_enumeration :
   kbtype_Strings = kb_display.
 Proof. exact kb_enumeration_spec. Qed.
 
-(* FULL STATEMENT (false of the pinned tree):
-     forall k, kb_lt k -> row_by_name k = row_by_number k *)
-Theorem C16_kb_tables_agree_refuted :
-  kb_table_differences = [KB_Dvorak; KB_DvorakHsu] /\
-  row_by_name KB_Dvorak <> row_by_number KB_Dvorak /\
-  row_by_name KB_DvorakHsu <> row_by_number KB_DvorakHsu.
-Proof. exact kb_tables_differ_witness. Qed.
-
-(* missing: the two Dvorak layouts *)
-Theorem C16_kb_tables_agree_partial :
-  forall k, kb_lt k -> k <> KB_Dvorak -> k <> KB_DvorakHsu -> row_by_name k = row_by_number k.
-Proof. exact kb_tables_agree_elsewhere. Qed.
+(* the two keyboard-layout tables (match in chewing_config_set_str / match in chewing_set_KBType)
+   agree on every layout *)
+Theorem C16_kb_tables_agree : forall k, kb_lt k -> row_by_name k = row_by_number k.
+Proof. exact kb_tables_agree. Qed.
 
 (* chewing_set_KBType with a layout number *)
 Theorem C16_set_KBType_known : forall (n : N) (c : config),
@@ -100,49 +97,40 @@ Theorem C16_set_KBType_known : forall (n : N) (c : config),
   r = 0 /\ kb_compat c' = n /\ in_effect c' = row_by_number n /\ opts c' = opts c /\ sel_keys c' = sel_keys c.
 Proof. exact set_KBType_known. Qed.
 
-(* FULL STATEMENT (false of the pinned tree): every v outside 0..16 selects the default layout, -1 *)
-Theorem C16_set_KBType_unknown_refuted :
-  ~ (0 <= 257 < Z.of_N n_kb) /\ fst (set_KBType 257 init_config) = 0 /\
-  kb_compat (snd (set_KBType 257 init_config)) = KB_Hsu.
-Proof. exact set_KBType_truncation_witness. Qed.
-
-(* missing: numbers whose low byte is a layout number (kbtype as u8) *)
-Theorem C16_set_KBType_unknown_partial : forall (v : Z) (c : config),
-  ~ kb_lt (as_u8 v) ->
+(* EVERY other integer: the default layout and the documented return code -1 *)
+Theorem C16_set_KBType_unknown : forall (v : Z) (c : config),
+  ~ (0 <= v < Z.of_N n_kb) ->
   let '(r, c') := set_KBType v c in
   r = -1 /\ kb_compat c' = KB_Default /\ in_effect c' = row_by_number KB_Default /\
   opts c' = opts c /\ sel_keys c' = sel_keys c.
-Proof. exact set_KBType_unknown_byte. Qed.
+Proof. exact set_KBType_unknown. Qed.
 
-(* keyboard_type by name *)
+(* keyboard_type by name: a known name installs its row and is read back; anything else is an
+   error that leaves the whole context unchanged *)
 Theorem C16_set_str_keyboard : forall (s : list N) (c : config),
   (forall k, kb_parse s = Some k ->
      let '(r, c') := config_set_str name_keyboard_type s c in
      r = c_OK /\ kb_compat c' = k /\ in_effect c' = row_by_name k /\
      config_get_str name_keyboard_type c' = SOk s /\ opts c' = opts c /\ sel_keys c' = sel_keys c) /\
   (kb_parse s = None -> config_set_str name_keyboard_type s c = (c_ERROR, c)).
-Proof. intros s c. split; [intros k; apply set_str_keyboard_ok | apply set_str_keyboard_err]. Qed.
+Proof. exact set_str_keyboard_spec. Qed.
+
+(* selecting a layout by number and by its name is the same operation on every context *)
+Theorem C16_number_is_name : forall (k : N) (c : config),
+  kb_lt k ->
+  snd (set_KBType (Z.of_N k) c) = snd (config_set_str name_keyboard_type (codes (kb_name k)) c).
+Proof. exact set_by_number_is_set_by_name. Qed.
 
 Theorem C16_str_unknown_name : forall (name : string) (s : list N) (c : config),
   name <> name_keyboard_type -> name <> name_selection_keys ->
   config_set_str name s c = (c_ERROR, c) /\ config_get_str name c = SError.
 Proof. exact str_unknown_name. Qed.
 
-(* FULL STATEMENT (false of the pinned tree), over ALL operation sequences:
-     forall ops, layout_inv (run ops init_config) *)
-Theorem C16_layout_in_effect_refuted :
-  let c := run [OpSetStr name_keyboard_type (codes "KB_DVORAK")] init_config in
-  get_KBType c = 6 /\ in_effect c = ("Qwerty", "Standard::new") /\
-  in_effect (snd (set_KBType 6 init_config)) = ("Dvorak", "Standard::new") /\ ~ layout_inv c.
-Proof. exact layout_in_effect_witness. Qed.
-
-(* missing: "the row of the reported layout in BOTH tables" *)
-Theorem C16_layout_in_effect_partial : forall ops : list op, layout_inv_weak (run ops init_config).
-Proof. exact layout_inv_weak_run. Qed.
-
-Theorem C16_layout_in_effect_if_tables_agree :
-  tables_agree -> forall ops : list op, layout_inv (run ops init_config).
-Proof. exact layout_inv_run_if_tables_agree. Qed.
+(* over ALL operation sequences (any interleaving of the configuration calls, the legacy calls,
+   chewing_Configure and arbitrary editor activity): the (keyboard, syllable editor) in effect is the
+   row, in both tables, of the layout the getters report *)
+Theorem C16_layout_in_effect : forall ops : list op, layout_inv (run ops init_config).
+Proof. exact layout_inv_run. Qed.
 
 Theorem C16_reported_layout : forall c : config,
   kb_lt (kb_compat c) ->
@@ -152,29 +140,27 @@ Theorem C16_reported_layout : forall c : config,
   KBStr2Num (get_KBString c) = get_KBType c.
 Proof. exact reported_layout. Qed.
 
-(* FULL STATEMENT (false of the pinned tree):
-     forall s c, cstring s -> config_set_str selection_keys s c = (OK, c') -> config_get_str selection_keys c' = SOk s *)
-Theorem C16_selection_keys_refuted :
-  let s := [233; 233; 233; 233; 233]%N in
-  cstring s /\ fst (config_set_str name_selection_keys s init_config) = c_OK /\
-  get_selKey (snd (config_set_str name_selection_keys s init_config)) = [233; 233; 233; 233; 233; 0; 0; 0; 0; 0] /\
-  config_get_str name_selection_keys (snd (config_set_str name_selection_keys s init_config)) = SPanic.
-Proof. exact selection_keys_witness. Qed.
+(* selection_keys, EVERY string: accepted = exactly ten ASCII characters *)
+Theorem C16_selection_keys_accepted : forall s : list N,
+  sel_keys_acceptable s = true <-> List.length s = 10%nat /\ is_ascii s = true.
+Proof. exact sel_keys_acceptable_spec. Qed.
 
-(* missing: non-ASCII strings *)
-Theorem C16_selection_keys_partial : forall (s : list N) (c : config),
-  is_ascii s = true -> cstring s ->
-  (List.length s = 10%nat ->
+(* accepted => OK, read back unchanged through both getters, nothing else changes;
+   not accepted => ERROR and the whole context unchanged *)
+Theorem C16_selection_keys : forall (s : list N) (c : config),
+  cstring s ->
+  (sel_keys_acceptable s = true ->
      exists c', config_set_str name_selection_keys s c = (c_OK, c') /\
                 config_get_str name_selection_keys c' = SOk s /\
                 get_selKey c' = map Z.of_N s /\
-                opts c' = opts c /\ kb_compat c' = kb_compat c /\ in_effect c' = in_effect c) /\
-  (List.length s <> 10%nat -> config_set_str name_selection_keys s c = (c_ERROR, c)).
-Proof. exact set_str_selkeys_ascii. Qed.
+                opts c' = opts c /\ kb_compat c' = kb_compat c /\ in_effect c' = in_effect c /\
+                syl_pending c' = syl_pending c) /\
+  (sel_keys_acceptable s = false -> config_set_str name_selection_keys s c = (c_ERROR, c)).
+Proof. exact set_str_selkeys_spec. Qed.
 
 (* chewing_set_selKey / chewing_get_selKey against the named option *)
 Theorem C16_selKey_alias : forall (s : list N) (c : config),
-  List.length s = 10%nat -> is_ascii s = true -> cstring s ->
+  sel_keys_acceptable s = true ->
   set_selKey (Some (map Z.of_N s)) 10 c = snd (config_set_str name_selection_keys s c).
 Proof. exact set_selKey_is_named. Qed.
 
@@ -183,6 +169,14 @@ Theorem C16_selKey_round_trip : forall (keys : list Z) (len : Z) (c : config),
   (len <> 10 -> set_selKey (Some keys) len c = c) /\
   set_selKey None len c = c.
 Proof. exact set_selKey_spec. Qed.
+
+(* the two getters of the selection keys agree, and config_get_str fails (never panics) exactly when
+   a key set through the unvalidated chewing_set_selKey has a NUL low byte *)
+Theorem C16_selKey_getters : forall c : config,
+  (Forall (fun k => 0 < k < 256) (get_selKey c) ->
+     config_get_str name_selection_keys c = SOk (map Z.to_N (get_selKey c))) /\
+  (config_get_str name_selection_keys c = SError <-> exists k, In k (get_selKey c) /\ as_u8 k = 0%N).
+Proof. exact get_str_selkeys_spec. Qed.
 
 Print Assumptions C16_source_tables.
 Print Assumptions C16_has_option.
@@ -195,21 +189,19 @@ Print Assumptions C16_legacy_tables.
 Print Assumptions C16_legacy_round_trip.
 Print Assumptions C16_kb_conversions.
 Print Assumptions C16_kb_enumeration.
-Print Assumptions C16_kb_tables_agree_refuted.
-Print Assumptions C16_kb_tables_agree_partial.
+Print Assumptions C16_kb_tables_agree.
 Print Assumptions C16_set_KBType_known.
-Print Assumptions C16_set_KBType_unknown_refuted.
-Print Assumptions C16_set_KBType_unknown_partial.
+Print Assumptions C16_set_KBType_unknown.
 Print Assumptions C16_set_str_keyboard.
+Print Assumptions C16_number_is_name.
 Print Assumptions C16_str_unknown_name.
-Print Assumptions C16_layout_in_effect_refuted.
-Print Assumptions C16_layout_in_effect_partial.
-Print Assumptions C16_layout_in_effect_if_tables_agree.
+Print Assumptions C16_layout_in_effect.
 Print Assumptions C16_reported_layout.
-Print Assumptions C16_selection_keys_refuted.
-Print Assumptions C16_selection_keys_partial.
+Print Assumptions C16_selection_keys_accepted.
+Print Assumptions C16_selection_keys.
 Print Assumptions C16_selKey_alias.
 Print Assumptions C16_selKey_round_trip.
+Print Assumptions C16_selKey_getters.
 
 (* ------------------------------------------------------------------ non-vacuity *)
 
@@ -244,21 +236,39 @@ Proof. repeat split. Qed.
 Example C16_ex_kb : kb_lt KB_Colemak /\ kb_name KB_Colemak = "KB_COLEMAK" /\
   set_KBType 16 init_config = (0, install_layout 16%N ("Colemak", "Standard::new") init_config) /\
   set_KBType 17 init_config = (-1, install_layout 0%N ("Qwerty", "Standard::new") init_config) /\
-  set_KBType (-1) init_config = (-1, install_layout 0%N ("Qwerty", "Standard::new") init_config).
+  set_KBType (-1) init_config = (-1, install_layout 0%N ("Qwerty", "Standard::new") init_config) /\
+  set_KBType 257 init_config = (-1, install_layout 0%N ("Qwerty", "Standard::new") init_config) /\
+  row_by_name KB_Dvorak = ("Dvorak", "Standard::new") /\ row_by_number KB_DvorakHsu = ("DvorakOnQwerty", "Hsu::new").
 Proof. repeat split. Qed.
 
-(* a history that changes the layout three ways and edits in between keeps the invariant's weak form
-   non-trivially (layout 16 in effect at the end) *)
+(* a history that changes the layout three ways and edits in between: the invariant is met
+   non-trivially (layout 6 selected by name, Dvorak keyboard in effect at the end) *)
 Example C16_ex_history :
   let c := run [OpSetKBType 7; OpEditor true false true; OpSetStr name_keyboard_type (codes "KB_HSU");
-                OpLegacySet LChiEngMode 0; OpSetStr name_keyboard_type (codes "KB_NOPE"); OpSetKBType 16] init_config in
-  kb_compat c = 16%N /\ in_effect c = ("Colemak", "Standard::new") /\ language_mode (opts c) = LanguageMode_English.
+                OpLegacySet LChiEngMode 0; OpSetStr name_keyboard_type (codes "KB_NOPE"); OpSetKBType 16;
+                OpSetStr name_keyboard_type (codes "KB_DVORAK")] init_config in
+  kb_compat c = 6%N /\ in_effect c = ("Dvorak", "Standard::new") /\ language_mode (opts c) = LanguageMode_English /\
+  get_KBType c = 6 /\ get_KBString c = codes "KB_DVORAK".
 Proof. repeat split. Qed.
 
 Example C16_ex_selection_keys :
   let s := codes "asdfghjkl;" in
-  is_ascii s = true /\ List.length s = 10%nat /\
+  sel_keys_acceptable s = true /\ cstring s /\
   fst (config_set_str name_selection_keys s init_config) = 0 /\
   config_get_str name_selection_keys (snd (config_set_str name_selection_keys s init_config)) = SOk s /\
-  config_set_str name_selection_keys (codes "asdfghjkl;1234") init_config = (-1, init_config).
-Proof. repeat split. Qed.
+  config_set_str name_selection_keys (codes "asdfghjkl;1234") init_config = (-1, init_config) /\
+  (* ten bytes, five characters: rejected now *)
+  config_set_str name_selection_keys [233; 233; 233; 233; 233]%N init_config = (-1, init_config) /\
+  (* ten characters, twenty bytes: rejected *)
+  sel_keys_acceptable [233; 233; 233; 233; 233; 233; 233; 233; 233; 233]%N = false.
+Proof.
+  cbv zeta. repeat split; try (vm_compute; reflexivity).
+  unfold cstring. vm_compute. intros H. repeat destruct H as [H|H]; try discriminate. exact H.
+Qed.
+
+(* an unvalidated zero key set through chewing_set_selKey: config_get_str reports an error *)
+Example C16_ex_selKey_zero :
+  config_get_str name_selection_keys (set_selKey (Some [0; 50; 51; 52; 53; 54; 55; 56; 57; 48]) 10 init_config) = SError /\
+  config_get_str name_selection_keys (set_selKey (Some [113; 50; 51; 52; 53; 54; 55; 56; 57; 48]) 10 init_config)
+    = SOk (codes "q234567890").
+Proof. split; reflexivity. Qed.
